@@ -84,7 +84,7 @@ def all_stacks(names, maxdepth, mindepth=1):
 
 def mc_text(stacks, outs, maxcalls, execs, ctxkeys, invs):
     used = sorted({n for st in stacks for n in st})
-    lines = ["---- MODULE MC ----", "EXTENDS Failsafe"]
+    lines = ["---- MODULE MC ----", "EXTENDS FailsafeRef"]
     for n in used:
         lines.append("D_%s == %s" % (n, vlib.tla_value(CATALOG[n])))
     lines.append("MCStacks == {" + ", ".join("<<" + ", ".join("D_" + n for n in st) + ">>" for st in stacks) + "}")
@@ -97,7 +97,7 @@ def mc_text(stacks, outs, maxcalls, execs, ctxkeys, invs):
     return "\n".join(lines) + "\n", cfg
 
 ALL_INVS = ["C16_Completion", "C16_Retry", "C02_Bound", "C02_OnlyAfterFailure", "C02_Single", "C17_Identities", "C17_LastSeenByFn",
-            "C10_Fallback", "C10_Outermost", "C11_HitSkipsInner", "C11_StoreIff", "C11_Outermost", "C01_Admission"]
+            "C10_Fallback", "C10_Outermost", "C11_HitSkipsInner", "C11_StoreIff", "C11_Outermost", "C01_Admission", "NestingRefinement"]
 
 
 def run_family(ctx, binary, name, stacks, outs=OUTS4, maxcalls=3, execs=2, ctxkeys=("none",), invs=ALL_INVS, entries=1,
